@@ -234,13 +234,28 @@ func (c *Channel) Invoke(ctx context.Context, method string, req, resp interface
 		cloner = ProtoCloner{}
 	}
 
+	// Invoke can return (on cancellation) before the handler has decoded the
+	// request. The caller owns req again from that moment, so the decode
+	// callback must not read it afterwards.
+	var reqMu sync.Mutex
+	reqGone := false
 	codec := func(out interface{}) error {
+		reqMu.Lock()
+		defer reqMu.Unlock()
+		if reqGone {
+			return status.Error(codes.Canceled, "call already completed")
+		}
 		return cloner.Copy(out, req)
 	}
 	ctx, cancel := context.WithCancel(ctx)
 	sts := internal.UnaryServerTransportStream{Name: method}
 
 	defer cancel()
+	defer func() {
+		reqMu.Lock()
+		reqGone = true
+		reqMu.Unlock()
+	}()
 	ch := make(chan frame, 1)
 	go func() {
 		defer func() {
